@@ -12,6 +12,9 @@ let parse_lop toks = match toks with
   | ["app"; i; v] -> LAppend (n_ i, z_ v)
   | ["pre"; i; v] -> LPrepend (n_ i, z_ v)
   | "apps" :: i :: vs -> LAppends (n_ i, zs vs)
+  | ["appr"; i; start; count; step] ->      (* append(start), append(start + step), ...: count values *)
+      let a = int_of_string start and d = int_of_string step in
+      LAppends (n_ i, List.init (max 0 (int_of_string count)) (fun k -> z_of_int (a + k * d)))
   | ["ins"; i; k; v] -> LInsert (n_ i, n_ k, z_ v)
   | ["insl"; i; k; j] -> LInsertList (n_ i, n_ k, n_ j)
   | ["appl"; i; j] -> LAppendList (n_ i, n_ j)
@@ -48,6 +51,8 @@ let parse_aop toks = match toks with
   | ["find"; i; v] -> AFind (n_ i, z_ v)
   | ["clear"; i] -> AClear (n_ i)
   | ["swap"; i; j] -> ASwap (n_ i, n_ j)
+  | ["appe"; i; k] -> AAppendOwn (n_ i, n_ k)
+  | ["rsze"; i; n; k] -> AResizeOwn (n_ i, z_ n, n_ k)
   | _ -> failwith ("bad array op: " ^ String.concat " " toks)
 
 (* kind rec: the element is built by an n-argument constructor, `app i v` is the 1-argument form *)
